@@ -1,17 +1,22 @@
 package main
 
 import (
+	"errors"
 	"flag"
 	"fmt"
 	"math/rand"
 	"os"
 	"path/filepath"
+	"runtime/debug"
 	"sort"
 	"strings"
 	"sync"
 	"time"
 
+	"github.com/lindb/common/pkg/ltoml"
+
 	"github.com/lindb/lindb/kv"
+	"github.com/lindb/lindb/kv/table"
 	"github.com/lindb/lindb/kv/version"
 
 	"verif/harness/internal/kvwrap"
@@ -36,15 +41,25 @@ func snapFields(id string, fam int, snap version.Snapshot, levels int, withFiles
 	content := [][]int64{}
 	for k := uint32(0); k < kvKeyUniverse; k++ {
 		seen := map[uint32]bool{}
-		err := snap.Load(k, func(val []byte) error {
-			for _, a := range kvwrap.DecodeAtoms(val) {
-				if !seen[a] {
-					seen[a] = true
-					content = append(content, []int64{int64(k), int64(a)})
+		err := func() (err error) {
+			// a read through an unmapped reader is a memory fault: an observation, not the end of the driver
+			old := debug.SetPanicOnFault(true)
+			defer func() {
+				debug.SetPanicOnFault(old)
+				if p := recover(); p != nil {
+					err = fmt.Errorf("fault while reading: %v", p)
 				}
-			}
-			return nil
-		})
+			}()
+			return snap.Load(k, func(val []byte) error {
+				for _, a := range kvwrap.DecodeAtoms(val) {
+					if !seen[a] {
+						seen[a] = true
+						content = append(content, []int64{int64(k), int64(a)})
+					}
+				}
+				return nil
+			})
+		}()
 		if err != nil {
 			f["loaderr"] = err.Error()
 		}
@@ -53,12 +68,33 @@ func snapFields(id string, fam int, snap version.Snapshot, levels int, withFiles
 	return f
 }
 
+// readHeld reads every key again through the table readers obtained when the snapshot was taken
+func readHeld(held map[uint32][]table.Reader) (msg string) {
+	old := debug.SetPanicOnFault(true)
+	defer func() {
+		debug.SetPanicOnFault(old)
+		if p := recover(); p != nil {
+			msg = fmt.Sprintf("fault while reading through a held reader: %v", p)
+		}
+	}()
+	for k, rs := range held {
+		for _, r := range rs {
+			// (a file whose key range covers k need not hold k)
+			if _, err := r.Get(k); err != nil && !errors.Is(err, table.ErrKeyNotExist) {
+				return fmt.Sprintf("held reader of %s: key %d: %v", r.Path(), k, err)
+			}
+		}
+	}
+	return ""
+}
+
 // one concurrent history on one family: readers, a flusher, a compaction, an independent cleanup
 func kvConcHistory(rec *trace.Recorder, root string, seed int64, h int, sum *trace.Summary) {
 	w := kvwrap.NewWorld(root, rec)
 	defer w.Drop()
 	rng := rand.New(rand.NewSource(seed))
 	opt := kv.DefaultStoreOption()
+	opt.TTL = ltoml.Duration(time.Millisecond)
 	run := &kvRun{w: w, rec: rec, path: root, opt: opt, rng: rng, famOpt: map[string]kv.FamilyOption{}}
 	rec.Reset(trace.F{"mode": "concurrent", "h": h})
 	if err := run.open(); err != nil {
@@ -113,9 +149,20 @@ func kvConcHistory(rec *trace.Recorder, root string, seed int64, h int, sum *tra
 				id := fmt.Sprintf("%s.%d", name, i)
 				snap := f.GetSnapshot()
 				rec.Emit("SnapAcquire", snapFields(id, fam, snap, levels, true))
+				// the readers of the snapshot, held across the later steps as the query path holds them
+				held := map[uint32][]table.Reader{}
+				for k := uint32(0); k < kvKeyUniverse; k++ {
+					if rs, err := snap.FindReaders(k); err == nil {
+						held[k] = rs
+					}
+				}
 				for j := 0; j < reads; j++ {
 					sc.Yield(name, "read")
-					rec.Emit("SnapRead", snapFields(id, fam, snap, levels, false))
+					sf := snapFields(id, fam, snap, levels, false)
+					if msg := readHeld(held); msg != "" {
+						sf["loaderr"] = msg
+					}
+					rec.Emit("SnapRead", sf)
 				}
 				sc.Yield(name, "close")
 				snap.Close()
@@ -158,6 +205,11 @@ func kvConcHistory(rec *trace.Recorder, root string, seed int64, h int, sum *tra
 		for i := 0; i < ncl; i++ {
 			kv.VerifDeleteObsoleteFiles(f)
 			sc.Yield("cl", "next")
+			// the periodic store check also evicts expired, unreferenced readers from the reader cache (TTL 1 ms
+			// here): a reader an open snapshot uses must survive
+			time.Sleep(3 * time.Millisecond)
+			kv.VerifCacheCleanup(run.store)
+			sc.Yield("cl", "after-cache-cleanup")
 		}
 	})
 	ok := sc.Run()
@@ -241,6 +293,65 @@ func kvCleanupWindow(rec *trace.Recorder, root string, seed int64, h int, sum *t
 	sum.Extra["schedules"] = sum.Extra["schedules"].(int) + 1
 }
 
+// kvReaderCache: a snapshot creates the table readers and closes; a second snapshot gets the same readers from
+// the cache and stays open while the reader cache is cleaned up after its TTL; the open snapshot still reads
+func kvReaderCache(rec *trace.Recorder, root string, seed int64, h int, sum *trace.Summary) {
+	w := kvwrap.NewWorld(root, rec)
+	defer w.Drop()
+	rng := rand.New(rand.NewSource(seed))
+	opt := kv.DefaultStoreOption()
+	opt.TTL = ltoml.Duration(time.Millisecond)
+	run := &kvRun{w: w, rec: rec, path: root, opt: opt, rng: rng, famOpt: map[string]kv.FamilyOption{}}
+	rec.Reset(trace.F{"mode": "concurrent", "h": h, "scenario": "reader-cache"})
+	if err := run.open(); err != nil {
+		sum.Unresolved = append(sum.Unresolved, "open: "+err.Error())
+		return
+	}
+	f, err := run.store.CreateFamily("10", kv.FamilyOption{Merger: unionMerger})
+	if err != nil {
+		sum.Unresolved = append(sum.Unresolved, "family: "+err.Error())
+		return
+	}
+	rec.Emit("Proj", trace.F{"proj": kvProj(run.store, w)})
+	for i := 0; i < 1+rng.Intn(3); i++ {
+		run.flush("10", 1+rng.Intn(3), false)
+	}
+	fam := int(f.ID())
+	hold := func(snap version.Snapshot) map[uint32][]table.Reader {
+		held := map[uint32][]table.Reader{}
+		for k := uint32(0); k < kvKeyUniverse; k++ {
+			if rs, err := snap.FindReaders(k); err == nil {
+				held[k] = rs
+			}
+		}
+		return held
+	}
+	// the first reader takes every table reader exactly once (one reference each) and goes away: the
+	// cache entries are unreferenced afterwards.  It reads nothing, so it is not an event of the trace
+	a := f.GetSnapshot()
+	cur := a.GetCurrent()
+	for lvl := 0; lvl < opt.Levels; lvl++ {
+		for _, fm := range cur.GetFiles(lvl) {
+			_, _ = a.GetReader(fm.GetFileNumber())
+		}
+	}
+	a.Close()
+	b := f.GetSnapshot()
+	rec.Emit("SnapAcquire", snapFields("b", fam, b, opt.Levels, true))
+	held := hold(b)
+	time.Sleep(3 * time.Millisecond)
+	kv.VerifCacheCleanup(run.store)
+	sf := snapFields("b", fam, b, opt.Levels, false)
+	if msg := readHeld(held); msg != "" {
+		sf["loaderr"] = msg
+	}
+	rec.Emit("SnapRead", sf)
+	b.Close()
+	rec.Emit("SnapClose", trace.F{"id": "b"})
+	run.closeStore()
+	sum.Extra["schedules"] = sum.Extra["schedules"].(int) + 1
+}
+
 // compactStarted triggers Family.Compact and reports whether a background job was started.
 func compactStarted(f kv.Family) bool {
 	snap := f.GetSnapshot()
@@ -296,6 +407,8 @@ func kvConcMain(args []string) int {
 		_ = os.MkdirAll(filepath.Dir(root), 0o755)
 		if h%5 == 4 {
 			kvCleanupWindow(rec, root, rng.Int63(), h, sum)
+		} else if h%5 == 3 {
+			kvReaderCache(rec, root, rng.Int63(), h, sum)
 		} else {
 			kvConcHistory(rec, root, rng.Int63(), h, sum)
 		}
